@@ -190,6 +190,8 @@ def build(reg):
     reg.add(Contract('solver::run_iteration', PROP, post=post_iteration, use=hv, name='solver::run_iteration(removal)'))
     for k in range(3):
         reg.add_loop(LoopContract('solver::run_iteration', k, lambda L: [], modifies=['*']))
+    # loop 3 renumbers the position indices after the removal (C08): it writes cell.local_id_ only
+    reg.add_loop(LoopContract('solver::run_iteration', 3, lambda L: [], modifies=['cell.local_id_']))
     # V7
     reg.add(Contract('solver::solver', PROP, post=post_initial_pressure, slice_loop=1, name='solver::solver::<initial pressure loop>'))
 
